@@ -430,16 +430,17 @@ Definition leaf_same (a b : val) : bool :=
   end.
 
 (* ---------- syntactic side conditions on the decompiled program ---------- *)
-(* [fits n ns bound e]: e prints (through the final nodes) within nesting depth n and mentions only
-   variables _var<i> with i < bound *)
-Fixpoint fits (n : nat) (ns : list node) (bound : nat) (e : expr) : bool :=
+(* [fits n ns bound okname e]: e prints (through the final nodes) within nesting depth n and mentions
+   only variables _var<i> with i < bound and only names accepted by [okname] *)
+Fixpoint fits (n : nat) (ns : list node) (bound : nat) (okname : string -> bool) (e : expr) : bool :=
   match n with
   | O => false
   | S k =>
-      let go := fits k ns bound in
+      let go := fits k ns bound okname in
       let gop := fun kv : expr * expr => go (fst kv) && go (snd kv) in
       match e with
-      | EConst _ | EName _ => true
+      | EConst _ => true
+      | EName s => okname s
       | EVar i => Nat.ltb i bound
       | ETuple l => forallb go l
       | ENode i => match nth_error ns i with
